@@ -206,6 +206,6 @@ def run(ctx):
     r1_dispatch(ctx, repo)
     r2_races(ctx, repo)
     ds = repo.cls("SqliteDataStore", "datastore")
-    sub = SubCtx(ctx, "R3")
+    sub = SubCtx(ctx, "R3", prefix="thread-safe store: ")
     c11.r3_conn(sub, repo, ds)
     c11.r2_sync(sub, repo, ds)
